@@ -472,14 +472,19 @@ Proof.
   destruct (c_pending_fee _) as [[f s]|]; [destruct s|]; try exact Hx; apply wf_set_fee; exact Hx.
 Qed.
 
-Lemma wf_channel_reestablish c nl nr c' ms : chan_wf c -> channel_reestablish c nl nr = ROk (c', ms) -> chan_wf c'.
+Lemma channel_reestablish_state c nl nr c' ms :
+  channel_reestablish c nl nr = ROk (c', ms) -> c' = set_flags c (c_awaiting_raa c) false (c_resend_raa_first c).
 Proof.
-  intros H. unfold channel_reestablish. cbv zeta. destruct (negb (c_disconnected c)); [discriminate|].
+  unfold channel_reestablish. cbv zeta.
+  destruct (negb (c_disconnected c)); [discriminate|].
   destruct (_ <? _); [discriminate|]. destruct (negb _); [discriminate|].
-  destruct (nl =? _); [intros [= <- <-]; apply wf_set_flags; exact H|].
-  destruct (nl =? _); [intros [= <- <-]; apply wf_set_flags; exact H|].
+  destruct (nl =? _); [intros E; congruence|].
+  destruct (nl =? _); [intros E; congruence|].
   destruct (nl <? _); discriminate.
 Qed.
+
+Lemma wf_channel_reestablish c nl nr c' ms : chan_wf c -> channel_reestablish c nl nr = ROk (c', ms) -> chan_wf c'.
+Proof. intros H E. rewrite (channel_reestablish_state _ _ _ _ _ E). apply wf_set_flags. exact H. Qed.
 
 (** ** All schedules: both sides stay well-formed *)
 Definition sys_wf (s : sys) : Prop := chan_wf (s_n0 s) /\ chan_wf (s_n1 s).
@@ -767,11 +772,7 @@ Proof.
 Qed.
 
 Lemma self_channel_reestablish c nl nr c' ms : channel_reestablish c nl nr = ROk (c', ms) -> c_self_msat c' = c_self_msat c.
-Proof.
-  unfold channel_reestablish. cbv zeta. destruct (negb _); [discriminate|]. destruct (_ <? _); [discriminate|].
-  destruct (negb _); [discriminate|]. destruct (nl =? _); [intros [= <- <-]; reflexivity|].
-  destruct (nl =? _); [intros [= <- <-]; reflexivity|]. destruct (nl <? _); discriminate.
-Qed.
+Proof. intros E. rewrite (channel_reestablish_state _ _ _ _ _ E). reflexivity. Qed.
 
 (** The amount a step settles irrevocably at node [x]: non-zero only when the step delivers a
     revoke_and_ack to [x]. *)
@@ -836,7 +837,7 @@ Proof.
     end.
     intros [= <-]. rewrite node_emit, node_set_node. rewrite Hn in E.
     pose proof (self_deliver_msg _ _ _ _ _ E) as Hd.
-    destruct y, x; cbn [negb Bool.eqb fst snd] in *; try lia; destruct m; cbn [fst snd]; lia.
+    destruct y, x; cbn [negb Bool.eqb fst snd] in *; try lia; destruct m; cbn [fst snd node s_n0 s_n1] in *; lia.
   - intros [= <-]. destruct x; cbn [node s_n0 s_n1]; rewrite self_peer_disconnected; lia.
   - destruct (s_connected s); [discriminate|]. intros [= <-]. destruct x; cbn [node s_n0 s_n1]; lia.
   - pose proof (self_maybe_free (send_ok_of o) (fee_ok o) (node s y)) as Hc.
@@ -856,3 +857,48 @@ Proof.
     rewrite (IH _ _ x Hr), (self_sys_step _ _ _ _ x E).
     destruct (settled_by s0 l x) as [a b]. destruct (ledger s1 t x) as [a' b']. cbn [fst snd]. lia.
 Qed.
+
+(** ** Send limits at the level of [send_htlc] *)
+Lemma limits_tight limit minimum c amt tag :
+  amt < minimum \/ limit < amt -> is_ok (send_htlc_checked limit minimum c amt tag) = false.
+Proof.
+  intros H. unfold send_htlc_checked. destruct (amt =? 0); [reflexivity|].
+  destruct (Z.ltb_spec amt minimum); [reflexivity|]. destruct (Z.ltb_spec limit amt); [reflexivity|]. lia.
+Qed.
+
+Lemma limits_accept limit minimum c amt tag :
+  0 < amt -> minimum <= amt <= limit -> c_disconnected c = false ->
+  exists c' b, send_htlc_checked limit minimum c amt tag = ROk (c', b) /\
+    (if b then c_out c' = c_out c ++ [mkOut (mkP (c_next_holder_id c) amt tag) OS_LocalAnnounced] /\ c_hc c' = c_hc c
+     else c_hc c' = c_hc c ++ [HC_Add amt tag] /\ c_out c' = c_out c) /\
+    c_in c' = c_in c /\ c_self_msat c' = c_self_msat c.
+Proof.
+  intros Hpos Hr Hd. unfold send_htlc_checked, send_htlc.
+  destruct (Z.eqb_spec amt 0); [lia|]. destruct (Z.ltb_spec amt minimum); [lia|]. destruct (Z.ltb_spec limit amt); [lia|].
+  rewrite Hd. destruct (negb (can_generate_new_commitment c)); eexists _, _; (split; [reflexivity|]); cbn; auto.
+Qed.
+
+(** ** Non-vacuity: a concrete schedule on a fresh channel *)
+Definition ex_chan (funder : bool) (self_msat : Z) : chan :=
+  mkChan funder 100000 CT_Anchors 354 354 self_msat 253 None None [] [] [] 0 0
+    (INITIAL_COMMITMENT_NUMBER - 1) (INITIAL_COMMITMENT_NUMBER - 1) false false false.
+Definition ex_sys : sys := mkSys (ex_chan true 70000000) (ex_chan false 30000000) [] [] true.
+Definition ex_oracle : oracle := mkOracle [300000] true 253.
+(** node 0 sends 5000 sat, full commitment dance, node 1 claims, dance; meanwhile node 1 sends a dust
+    HTLC that ends in node 0's holding-cell-free path. *)
+Definition ex_labels : list (oracle * label) :=
+  map (fun l => (ex_oracle, l))
+    [L_Send false 5000000 11; L_Deliver false; L_Deliver false; L_Send true 300000 22; L_Deliver true; L_Deliver true;
+     L_Deliver false; L_Deliver true; L_Deliver true; L_Deliver false; L_Deliver false; L_Deliver true;
+     L_Claim true 0; L_Deliver true; L_Deliver true; L_Deliver false; L_Deliver false; L_Deliver true].
+
+Lemma ex_sys_wf : sys_wf ex_sys.
+Proof.
+  split; (constructor; [constructor | constructor |]); exists [], []; cbn; repeat split; constructor.
+Qed.
+
+Lemma ex_run_ok : exists s, run ex_sys ex_labels = ROk s /\
+  c_self_msat (s_n0 s) = 65000000 /\ c_self_msat (s_n1 s) = 35000000 /\
+  map (fun h => (p_id (ih h), in_code (ist h))) (c_in (s_n0 s)) = [(0, 3)] /\
+  ledger ex_sys ex_labels false = (0, 5000000).
+Proof. eexists. split; [vm_compute; reflexivity|]. vm_compute. repeat split; reflexivity. Qed.
